@@ -207,6 +207,7 @@ class DataModel:
 
     def declare_method(self, cls, ms: MethodSpec):
         self.cls(cls).methods[ms.name] = ms
+        self._builtin_decl.discard((cls, ms.name))      # a declaration by the query replaces the backend's default
         return self
 
     def method(self, cls, name, nargs=0) -> MethodSpec:
